@@ -430,3 +430,26 @@ Theorem C05_glue_rs_matches_model :
   (forall w a r, Glue.U_unchecked_shr_internal w a r = shr_pad_internal w false a r).
 Proof. exact glue_shift_matches_model. Qed.
 Print Assumptions C05_glue_rs_matches_model.
+(* ---- tie to the source: the shift / rotation / reversal loops REGENERATED from /repo/src/buint/mod.rs on
+   every run (Generated/Loops.v, tools/rs2v_loops.py; control-flow vocabulary Model/Imp.v) compute exactly the
+   model's functions under the preconditions of their call sites (shift amount below BITS; rotation amount at
+   most BITS; digit rotation at most N), for every power-of-two digit width: with an iteration budget of at
+   least N they neither panic nor run out of budget. ---- *)
+From Bnum.Model Require Import Imp Bits.
+From Bnum.Generated Require Import Loops.
+From Bnum.Proofs Require Import LoopsTieC05.
+Theorem C05_loops_rs_match_model w lg : 0 <= lg -> w = 2 ^ lg ->
+  (forall n a rhs fuel, wf w n a -> 0 <= rhs < bits w n -> (n <= fuel)%nat ->
+     Loops.unchecked_shl_internal w (Z.of_nat n) fuel a rhs = Done (shl_internal w a rhs)) /\
+  (forall n neg a rhs fuel, wf w n a -> 0 <= rhs < bits w n -> (n <= fuel)%nat ->
+     Loops.unchecked_shr_pad_internal w (Z.of_nat n) fuel neg a rhs = Done (shr_pad_internal w neg a rhs)) /\
+  (forall n a k fuel, wf w n a -> (k <= n)%nat -> (n <= fuel)%nat ->
+     Loops.rotate_digits_left w (Z.of_nat n) fuel a (Z.of_nat k) = Done (rotate_digits_left a k)) /\
+  (forall n a rhs fuel, wf w n a -> 0 <= rhs <= bits w n -> (n <= fuel)%nat ->
+     Loops.unchecked_rotate_left w (Z.of_nat n) fuel a rhs = Done (unchecked_rotate_left w a rhs)) /\
+  (forall n a fuel, wf w n a -> (n <= fuel)%nat ->
+     Loops.swap_bytes w (Z.of_nat n) fuel a = Done (swap_bytes w a)) /\
+  (forall n a fuel, wf w n a -> (n <= fuel)%nat ->
+     Loops.reverse_bits w (Z.of_nat n) fuel a = Done (reverse_bits w a)).
+Proof. exact (loops_C05_match_model w lg). Qed.
+Print Assumptions C05_loops_rs_match_model.
